@@ -149,4 +149,23 @@ theorem gen_serial_pinned :
     Gen.crc16CCITTPoly = 0x8408 ∧ Gen.crc16CCITTTableCtor = "MakeTableNoXOR" ∧ Gen.crc16ChecksumCCITTInit = 0 := by
   decide
 
+/-- non-vacuity of `c17_detects_safe`: the frame the encoder writes for subject "ack", payload 01 02 03, sequence 7, and an
+    error pattern that flips eight adjacent bits inside the subject field -/
+example :
+    let p : Bytes := (7 : UInt8) :: (padSubject [97, 99, 107] ++ [1, 2, 3]) ++ le16 (crc ((7 : UInt8) :: (padSubject [97, 99, 107] ++ [1, 2, 3])))
+    let e : Bytes := List.replicate 3 0 ++ [255] ++ List.replicate 18 0
+    encode 7 [97, 99, 107] [1, 2, 3] = .ok p ∧ p.length = e.length ∧ run 0 (bitsOf p) = 0 ∧ 8 * p.length < 32767 ∧ 17 ≤ p.length ∧
+      SubjectSafe (field p) = true ∧ Burst16 (bitsOf e) := by
+  intro p e
+  refine ⟨by decide +kernel, by decide +kernel, by decide +kernel, by decide +kernel, by decide +kernel, by decide +kernel, ?_⟩
+  refine ⟨⟨24, by unfold IsTrue; decide +kernel⟩, 24, ?_⟩
+  intro j hj
+  have hlt : j < (bitsOf e).length := by
+    unfold IsTrue at hj
+    exact (List.getElem?_eq_some_iff.mp hj).1
+  have hlen : (bitsOf e).length = 176 := by decide +kernel
+  rw [hlen] at hlt
+  have key : ∀ j : Fin 176, (bitsOf e)[j.val]? = some true → 24 ≤ j.val ∧ j.val ≤ 24 + 15 := by decide +kernel
+  exact key ⟨j, hlt⟩ hj
+
 end Siot.Serial
